@@ -13,5 +13,5 @@ CONSTANTS
 SPECIFICATION Spec
 VIEW view
 CONSTRAINT Bound
-INVARIANTS TypeOK KeyInForce ParentRule StopsOnGap NoTwoArtifacts ArtifactRefsItsCertificate NoDoubleCertificationK AttributionK SignerListHonestK
+INVARIANTS CertifiedHasCertificate TypeOK KeyInForce ParentRule StopsOnGap NoTwoArtifacts ArtifactRefsItsCertificate NoDoubleCertificationK AttributionK SignerListHonestK
 CHECK_DEADLOCK FALSE
